@@ -143,8 +143,14 @@ static void copy_clean_case(rng_t *r, uint64_t idx)
     rng_bytes(r, buf, n + 8);
     for (unsigned i = 0; i < n + 8; ++i) if (!buf[i]) buf[i] = 0x77;
     {   uint8_t tail[8]; memcpy(tail, buf + n, 8);
+        uint8_t *buf2 = (uint8_t *)galloc(n, 1);
+        for (unsigned i = 0; i < n; ++i) buf2[i] = (uint8_t)~buf[i];      /* every byte differs */
         ascon_clean(buf, n);
-        for (unsigned i = 0; i < n; ++i) if (buf[i]) { vf_violation("C13", "clean:not-zero", "\"n\":%u,\"at\":%u", n, i); break; }
+        ascon_clean(buf2, n);
+        /* C13 demands independence from the previous contents, not a particular fill value */
+        for (unsigned i = 0; i < n; ++i) if (buf[i] != buf2[i]) { vf_violation("C13", "clean:depends-on-contents", "\"n\":%u,\"at\":%u", n, i); break; }
+        for (unsigned i = 0; i < n; ++i) if (buf[i]) { vf_count("ascon_clean_nonzero_fill", 1); break; }
+        gfree(buf2);
         if (memcmp(tail, buf + n, 8)) vf_violation("C12", "stray-write:ascon_clean", "\"n\":%u", n); }
     vf_distinct("copy-clean|n%s", n == 0 ? "0" : n < 8 ? "<8" : n % 8 ? "odd" : "x8");
     vf_count("copy_clean_cases", 1);
